@@ -140,15 +140,21 @@ func zzStep(h *zzHost, disk, mem filesystem.Filespace, ref *reftree.Node) bool {
 	}
 	segs, climbs := reftree.Norm(p)
 	inside := !climbs
+	// refuse: the operation addresses a node of the wrong kind or a missing
+	// source; both backends must report an error and leave the tree as it is
+	refuse := false
 	var dErr, mErr error
 	switch op {
 	case oWriteFile:
 		data := nd.BytesUpTo("data", 1)
 		dErr, mErr = disk.WriteFile(p, data, filesystem.DefaultUnixFileMode), mem.WriteFile(p, data, filesystem.DefaultUnixFileMode)
+		if inside && len(segs) > 0 && !noFileOnWay(ref, segs) {
+			refuse = true
+		}
 		inside = inside && len(segs) > 0 && noFileOnWay(ref, segs)
 		if inside {
 			if t := ref.Find(segs); t != nil && t.Dir {
-				inside = false
+				inside, refuse = false, true
 			}
 		}
 		if inside {
@@ -156,10 +162,13 @@ func zzStep(h *zzHost, disk, mem filesystem.Filespace, ref *reftree.Node) bool {
 		}
 	case oMkdirAll:
 		dErr, mErr = disk.MkdirAll(p, filesystem.DefaultUnixDirMode), mem.MkdirAll(p, filesystem.DefaultUnixDirMode)
+		if inside && len(segs) > 0 && !noFileOnWay(ref, segs) {
+			refuse = true
+		}
 		inside = inside && (len(segs) == 0 || noFileOnWay(ref, segs))
 		if inside && len(segs) > 0 {
 			if t := ref.Find(segs); t != nil && !t.Dir {
-				inside = false
+				inside, refuse = false, true
 			}
 		}
 		if inside {
@@ -167,6 +176,7 @@ func zzStep(h *zzHost, disk, mem filesystem.Filespace, ref *reftree.Node) bool {
 		}
 	case oRemove:
 		dErr, mErr = disk.Remove(p), mem.Remove(p)
+		refuse = inside && len(segs) > 0 && ref.Find(segs) == nil
 		inside = inside && len(segs) > 0 && ref.Find(segs) != nil
 		if inside {
 			t := ref.Find(segs)
@@ -189,6 +199,7 @@ func zzStep(h *zzHost, disk, mem filesystem.Filespace, ref *reftree.Node) bool {
 		d2, e2 := mem.ReadFile(p)
 		dErr, mErr = e1, e2
 		t := ref.Find(segs)
+		refuse = inside && (t == nil || t.Dir)
 		inside = inside && t != nil && !t.Dir
 		if inside && e1 == nil && e2 == nil {
 			nd.Assert(bytes.Equal(d1, d2) && bytes.Equal(d1, t.Data), "C02/readfile-bytes")
@@ -198,6 +209,7 @@ func zzStep(h *zzHost, disk, mem filesystem.Filespace, ref *reftree.Node) bool {
 		l2, e2 := mem.ReadDir(p)
 		dErr, mErr = e1, e2
 		t := ref.Find(segs)
+		refuse = inside && (t == nil || !t.Dir)
 		inside = inside && t != nil && t.Dir
 		if inside && e1 == nil && e2 == nil {
 			nd.Assert(len(l1) == len(l2) && len(l1) == len(t.Kids), "C02/readdir-set")
@@ -218,6 +230,7 @@ func zzStep(h *zzHost, disk, mem filesystem.Filespace, ref *reftree.Node) bool {
 		_, e2 := mem.Lstat(p)
 		dErr, mErr = e1, e2
 		t := ref.Find(segs)
+		refuse = inside && t == nil
 		inside = inside && t != nil && len(segs) > 0
 		if inside && e1 == nil {
 			nd.Assert(i1.Name() == segs[len(segs)-1] && i1.IsDir() == t.Dir, "C02/lstat-info")
@@ -244,7 +257,7 @@ func zzStep(h *zzHost, disk, mem filesystem.Filespace, ref *reftree.Node) bool {
 		inside = inside && len(segs) > 0 && ref.ParentExists(segs)
 		if inside {
 			if t := ref.Find(segs); t != nil && t.Dir {
-				inside = false
+				inside, refuse = false, true
 			}
 		}
 		if inside {
@@ -252,6 +265,7 @@ func zzStep(h *zzHost, disk, mem filesystem.Filespace, ref *reftree.Node) bool {
 		}
 	case oReader:
 		t := ref.Find(segs)
+		refuse = inside && t == nil
 		inside = inside && t != nil && !t.Dir
 		r1, e1 := disk.Reader(p)
 		r2, e2 := mem.Reader(p)
@@ -284,12 +298,20 @@ func zzStep(h *zzHost, disk, mem filesystem.Filespace, ref *reftree.Node) bool {
 			dErr, mErr = disk.Copy(p, q), mem.Copy(p, q)
 		}
 		s := ref.Find(segs)
+		refuse = inside && !dclimbs && s == nil
 		inside = inside && !dclimbs && len(segs) > 0 && len(dsegs) > 0 && s != nil &&
 			(op == oCopy || (op == oCopyFile) == !s.Dir) &&
 			!reftree.IsPrefix(segs, dsegs) && ref.Find(dsegs) == nil && ref.ParentExists(dsegs)
 		if inside {
 			nd.Assert(ref.CopyTo(s, dsegs), "C02/ref")
 		}
+	}
+	if refuse {
+		nd.Assert(dErr != nil && mErr != nil, "C02/"+name+"/wrong-kind-or-missing-refused-by-both")
+		nd.Assert(reftree.Same(disk, ref, nil), "C02/"+name+"/refused-disk-tree-unchanged")
+		nd.Assert(reftree.Same(mem, ref, nil), "C02/"+name+"/refused-mem-tree-unchanged")
+		nd.Assert(h.outsideIntact(), "C02/"+name+"/host-outside-root")
+		return true
 	}
 	if !inside {
 		nd.Assert(h.outsideIntact(), "C02/"+name+"/outside-preconditions-changed-host")
